@@ -125,11 +125,13 @@ def main(run: Run):
         exec_validate(run, scn, behs, batch=max(1, len(behs or [])))
 
     # 4. large instances: 10^4 prefixes (+10% re-announcements / withdrawals, End-of-RIB)
+    if run.replay:
+        if str(run.replay.get("group", "")).startswith("large"):
+            exec_validate(run, run.replay["group"], [run.replay["behaviour"]], batch=1)
+        return
     sizes = [10000] if not thorough else [10000, 10000, 20000]
     for i, n in enumerate(sizes):
-        g = "large-%d-%d" % (n, i)
-        behs = run.replay_behaviours(g) if run.replay else gen(run, "large", 1, 2, n, seed * 100 + 50 + i)[:1]
-        exec_validate(run, g, behs, batch=1)
+        exec_validate(run, "large-%d-%d" % (n, i), gen(run, "large", 1, 2, n, seed * 100 + 50 + i)[:1], batch=1)
 
 
 RULE = ("behaviours = (a) EVERY list up to length 3/4 over a one-prefix pool (2 local ids x 2 attribute sets x "
